@@ -206,3 +206,85 @@ Proof.
   change (64 * (0 + 1)) with 64 in Z1.
   pose proof (N.div_mod a (2 ^ 64) ltac:(discriminate)) as D. rewrite Z1, E00 in D. lia.
 Qed.
+
+(* ---- u256 shifts (WQOP shl/shr never overflow) and wrapping_add/sub/mul (F_WRAPPING set) *)
+Notation wfl := {| unsafemath := false; wrapping := true |}.
+
+Lemma u256_lsh_df a s : u256_lsh df a s = Ret ((a * 2 ^ s) mod 2 ^ 256).
+Proof.
+  unfold u256_lsh, wq, wq_op. destruct (N.lt_ge_cases s 256) as [L | G].
+  - rewrite wide_shl_ok by (try exact L; change (2 ^ 32) with 4294967296; lia). reflexivity.
+  - rewrite wide_shl_big by exact G. cbn [omap res vm]. f_equal. symmetry.
+    replace s with (256 + (s - 256)) by lia. rewrite N.pow_add_r.
+    replace (a * (2 ^ 256 * 2 ^ (s - 256))) with (a * 2 ^ (s - 256) * 2 ^ 256) by ring.
+    apply N.mod_mul. discriminate.
+Qed.
+
+Lemma u256_rsh_df a s : a < 2 ^ 256 -> u256_rsh df a s = Ret (a / 2 ^ s).
+Proof.
+  intros Ha. unfold u256_rsh, wq, wq_op. rewrite wide_shr_any by (exact Ha || (vm_compute; congruence)). reflexivity.
+Qed.
+
+Lemma u256_wrapping_add a b : u256_add (wrap_on df) a b = Ret ((a + b) mod 2 ^ 256).
+Proof.
+  unfold u256_add, wq, wq_op. change (wrap_on df) with wfl. destruct (N.lt_ge_cases (a + b) (2 ^ 256)) as [L | G].
+  - rewrite wide_add_ok by exact L. rewrite N.mod_small by exact L. reflexivity.
+  - rewrite wide_add_wrapping by exact G. reflexivity.
+Qed.
+
+Lemma u256_wrapping_sub a b : a < 2 ^ 256 -> b < 2 ^ 256 ->
+  u256_sub (wrap_on df) a b = Ret ((2 ^ 256 + a - b) mod 2 ^ 256).
+Proof.
+  intros Ha Hb. unfold u256_sub, wq, wq_op. change (wrap_on df) with wfl. destruct (N.le_gt_cases b a) as [L | G].
+  - rewrite wide_sub_ok by exact L. cbn [omap res vm]. f_equal.
+    replace (2 ^ 256 + a - b) with (a - b + 1 * 2 ^ 256) by lia. rewrite N.mod_add by discriminate.
+    symmetry. apply N.mod_small. lia.
+  - rewrite wide_sub_wrapping by exact G. cbn [omap res vm]. f_equal. symmetry. apply N.mod_small. lia.
+Qed.
+
+Lemma u256_wrapping_mul a b : u256_mul (wrap_on df) a b = Ret ((a * b) mod 2 ^ 256).
+Proof.
+  unfold u256_mul, wq, wq_mul. change (wrap_on df) with wfl. destruct (N.lt_ge_cases (a * b) (2 ^ 256)) as [L | G].
+  - rewrite wide_mul_ok by exact L. rewrite N.mod_small by exact L. reflexivity.
+  - rewrite wide_mul_wrapping by exact G. reflexivity.
+Qed.
+
+(* fuel of u256::pow: 40 >= the bit length of a u32 exponent *)
+Lemma u256_pow_loop_fuel : forall fuel base acc e, 1 <= e -> e < 2 ^ 64 -> e < 2 ^ N.of_nat fuel ->
+  u256_pow_loop df fuel base acc e <> Oof.
+Proof.
+  induction fuel as [| fuel IH]; intros base acc e He Hlt Hf.
+  - change (2 ^ N.of_nat 0) with 1 in Hf. lia.
+  - cbn [u256_pow_loop]. destruct (1 <? e) eqn:E1; [|discriminate].
+    apply N.ltb_lt in E1.
+    assert (E2 : 1 <= e / 2) by (apply N.div_le_lower_bound; [discriminate|]; lia).
+    assert (L2 : e / 2 < 2 ^ 64) by (pose proof (div_le_self e 2 ltac:(lia)); lia).
+    assert (F2 : e / 2 < 2 ^ N.of_nat fuel) by (apply half_lt_pow; exact Hf).
+    destruct (N.land e 1 =? 1).
+    + rewrite u256_checked_mul_df. destruct (acc * base <? 2 ^ 256); cbn [bind]; [|discriminate].
+      rewrite u256_checked_mul_df. destruct (base * base <? 2 ^ 256); cbn [bind]; [|discriminate].
+      rewrite srl1 by exact Hlt. apply IH; assumption.
+    + cbn [bind]. rewrite u256_checked_mul_df. destruct (base * base <? 2 ^ 256); cbn [bind]; [|discriminate].
+      rewrite srl1 by exact Hlt. apply IH; assumption.
+Qed.
+
+Lemma u256_pow_total a e : e < 2 ^ 32 -> u256_pow df a e <> Oof.
+Proof.
+  intros He. unfold u256_pow. destruct (e =? 0) eqn:E0; [discriminate|]. apply N.eqb_neq in E0.
+  assert (L64 : e < 2 ^ 64) by (change (2 ^ 32) with 4294967296 in He; change (2 ^ 64) with 18446744073709551616; lia).
+  assert (L40 : e < 2 ^ N.of_nat 40) by (change (2 ^ 32) with 4294967296 in He; change (2 ^ N.of_nat 40) with 1099511627776; lia).
+  pose proof (u256_pow_loop_fuel 40 a 1 e ltac:(lia) L64 L40) as F.
+  destruct (u256_pow_loop df 40 a 1 e) as [[[b' a'] |] | c | p |]; cbn [bind]; try discriminate; try congruence.
+  rewrite u256_checked_mul_df. destruct (a' * b' <? 2 ^ 256); discriminate.
+Qed.
+
+Lemma u256_pow_full a e : e < 2 ^ 32 ->
+  match u256_pow df a e with
+  | Ret r => a ^ e < 2 ^ 256 /\ r = a ^ e
+  | Rev _ | Vmp _ => 2 ^ 256 <= a ^ e
+  | Oof => False
+  end.
+Proof.
+  intros He. pose proof (u256_pow_correct a e He) as Y. pose proof (u256_pow_total a e He) as T.
+  destruct (u256_pow df a e); cbn [yieldsN] in Y; try exact Y. congruence.
+Qed.
